@@ -33,9 +33,9 @@ const MnemInfo *find_mnem(const std::string &s) {
     return nullptr;
 }
 const char *KNOWN_SUFFIX[] = {"V", "mV", "kOHM", "OHM", "Hz", "s", "ms", "A", "uV", "MHZ"};
-const char *UNKNOWN_SUFFIX[] = {"xyz", "FOO", "Vx", "qq"};
+const char *UNKNOWN_SUFFIX[] = {"xyz", "FOO", "Vx", "qq", "V/S", "M2", "S-1", "OHM.M", "HZ/S", "V2/HZ", "M/S2"};   // incl. compound units the standard table lacks
 // known exactly when the context was given the application's own unit table (knob custom_units), in any letter case
-const char *CUSTOM_SUFFIX[] = {"mVpp", "MVPP", "mvpp", "Vrms", "VRMS", "dBc", "DBC", "dbc"};
+const char *CUSTOM_SUFFIX[] = {"mVpp", "MVPP", "mvpp", "Vrms", "VRMS", "dBc", "DBC", "dbc", "V/us", "V/US", "m3"};
 bool g_custom_units = false;
 
 // ---- independent validators: a plan whose literal does not belong to the class it is labelled with is inert
@@ -70,15 +70,39 @@ bool is_dec(const std::string &s, bool *is_int = nullptr) {
     if (is_int) *is_int = !dot && !expo && d1 > 0 && d1 - lead0 <= 9;
     return i == n;
 }
+// <decimal number>[blanks]<suffix>; a suffix starts with a letter and goes on with letters, digits, '/', '.', '-'
+// (488.2 7.7.3: compound and exponent units such as V/S, M2, S-1, OHM.M)
 bool split_decsuf(const std::string &s, std::string &num, std::string &suf) {
-    size_t i = s.size();
-    while (i > 0 && (isalpha((unsigned char) s[i - 1]))) i--;
-    if (i == s.size() || i == 0) return false;
-    suf = s.substr(i);
+    size_t i = 0, n = s.size();
+    if (i < n && (s[i] == '+' || s[i] == '-')) i++;
+    size_t d = 0;
+    while (i < n && isdigit((unsigned char) s[i])) i++, d++;
+    if (i < n && s[i] == '.') {
+        i++;
+        while (i < n && isdigit((unsigned char) s[i])) i++, d++;
+    }
+    if (!d) return false;
+    // exponent only if digits follow the E (otherwise the E begins the suffix)
+    {
+        size_t j = i;
+        while (j < n && (s[j] == ' ' || s[j] == '\t')) j++;
+        if (j < n && (s[j] == 'e' || s[j] == 'E')) {
+            size_t k = j + 1;
+            while (k < n && (s[k] == ' ' || s[k] == '\t')) k++;
+            if (k < n && (s[k] == '+' || s[k] == '-')) k++;
+            size_t d3 = 0;
+            while (k < n && isdigit((unsigned char) s[k])) k++, d3++;
+            if (d3) i = k;
+        }
+    }
+    num = s.substr(0, i);
     size_t j = i;
-    while (j > 0 && s[j - 1] == ' ') j--;
-    num = s.substr(0, j);
-    if (!num.empty() && (num.back() == 'e' || num.back() == 'E')) return false;
+    while (j < n && s[j] == ' ') j++;
+    suf = s.substr(j);
+    if (suf.empty() || !isalpha((unsigned char) suf[0])) return false;
+    for (char c : suf)
+        if (!(isalnum((unsigned char) c) || c == '/' || c == '.' || c == '-')) return false;
+    if (suf == "e" || suf == "E") return false;
     return is_dec(num);
 }
 bool is_nondec(const std::string &s, uint64_t *val = nullptr) {
